@@ -39,6 +39,23 @@ if rc == 0:
             det[c] = {'exit': rcc, 'violations': viol[:6], 'n_violation_lines': len(viol), 'wall_s': round(time.time() - t, 1)}
     finally:
         sh('git -C /repo checkout -- .')
+if rc != 0:
+    # the patch no longer applies to /repo's HEAD (a later fix: commit rewrote the lines): evaluate on the agent's own scratch
+    # worktree (the older tree), comparing the violation lines with and without the patch
+    def run_on(tree):
+        out_ = {}
+        for c in checks:
+            rcc, outc = sh('CHI_REPO=%s PVC_EVIDENCE_DIR=/tmp/pvc_seed_out %s/bin/check %s --tier quick' % (tree, ROOT, c))
+            out_[c] = sorted(l for l in outc.splitlines() if l.startswith('VIOLATION'))
+        return out_
+    sh('git -C %s checkout -- .' % wt)
+    before = run_on(wt)
+    sh('git -C %s apply %s/patch.diff' % (wt, src))
+    after = run_on(wt)
+    sh('git -C %s checkout -- .' % wt)
+    for c in checks:
+        new = [l for l in after[c] if l not in before[c]]
+        det[c] = {'exit': 1 if after[c] else 0, 'violations': new[:6], 'n_violation_lines': len(new), 'evaluated_on': 'scratch worktree at the pre-fix commit (patch does not apply to HEAD); violations listed are those not present without the patch'}
 meta['detection'] = det
 meta['detected_by'] = [c for c, v in det.items() if v['exit'] == 1 and v['n_violation_lines'] > 0]
 if meta['confirmed']:
